@@ -167,7 +167,8 @@ def tlc(module: str, cfg: str, *, env: dict | None = None, workers: int | str = 
     e = dict(os.environ)
     e.update({k: str(v) for k, v in (env or {}).items()})
     e['OUT'] = str(out)
-    jopts = f'-Xmx{xmx} -XX:+UseParallelGC'
+    (d / 'jtmp').mkdir(exist_ok=True)       # TLC's temporary directories stay inside the scratch directory
+    jopts = f'-Xmx{xmx} -XX:+UseParallelGC -Djava.io.tmpdir={d}/jtmp'
     if deque:
         jopts += ' -Dtlc2.tool.queue.IStateQueue=StateDeque'
     e['JAVA_TOOL_OPTIONS'] = jopts
@@ -204,6 +205,7 @@ def tlc(module: str, cfg: str, *, env: dict | None = None, workers: int | str = 
         (keep / f'{tag}.log').write_text(res.out)
         raise MachineryError(f'TLC failed on {module} [{tag}] rc={p.returncode}:\n{res.out[-3000:]}')
     shutil.rmtree(d / 'meta', ignore_errors=True)
+    shutil.rmtree(d / 'jtmp', ignore_errors=True)
     return res
 
 
